@@ -20,8 +20,9 @@
 //	                   points except methods of the sweep-internal helper types, see internalTypes)
 //	      localLock m  a lock that is not package-level is held (does not protect a global)
 //	      none
-//	    OUT OF SCOPE (not seen): mutation through method calls on the variable (maps/slices behind
-//	    methods, sync.Pool, bytes.Buffer …), through aliases after the address was taken (sites that
+//	    Mutating method calls Store/LoadOrStore/Delete/… on a package-level variable and delete(v,k)
+//	    are write sites (kind method:<name> / delete). OUT OF SCOPE (not seen): mutation through
+//	    other method calls on the variable (bytes.Buffer …, sync.Pool internals), through aliases after the address was taken (sites that
 //	    take the address are listed with kind "addr"), function values, reflection, other packages.
 //	(b) every sync.Pool Get site with the pooled struct type, the full field list of that struct and
 //	    the set of fields assigned before the first read/escape of the object on the straight-line
@@ -117,6 +118,7 @@ type pkgInfo struct {
 	specs     map[*ast.ValueSpec]bool
 	funcs     map[string]bool // package-level function names
 	structs   map[string][]string
+	stTypes   map[string]*ast.StructType
 	units     []*unit
 	calls     map[string][]callSite
 	escaping  map[string]bool
@@ -153,6 +155,7 @@ func main() {
 	}
 	var b bytes.Buffer
 	emit(&b, all)
+	emitFontLevel(&b, all)
 	if err := os.WriteFile(os.Args[2], b.Bytes(), 0o644); err != nil {
 		fmt.Fprintln(os.Stderr, "facts:", err)
 		os.Exit(1)
@@ -165,7 +168,7 @@ func tagOK(tag string) bool {
 
 func load(name, dir, repo string) (*pkgInfo, error) {
 	p := &pkgInfo{name: name, dir: dir, fset: token.NewFileSet(), vars: map[string]*varInfo{}, specs: map[*ast.ValueSpec]bool{},
-		funcs: map[string]bool{}, structs: map[string][]string{}, calls: map[string][]callSite{}, escaping: map[string]bool{},
+		funcs: map[string]bool{}, structs: map[string][]string{}, stTypes: map[string]*ast.StructType{}, calls: map[string][]callSite{}, escaping: map[string]bool{},
 		entryAft: map[*unit]map[string]bool{}, multi: map[string]bool{}, poolFuncs: map[string]bool{}}
 	ents, err := os.ReadDir(dir)
 	if err != nil {
@@ -379,6 +382,7 @@ func (p *pkgInfo) analyse() {
 								}
 							}
 							p.structs[sp.Name.Name] = fs
+							p.stTypes[sp.Name.Name] = st
 						}
 					}
 				}
@@ -681,6 +685,24 @@ func (p *pkgInfo) analyse() {
 						v.writes = append(v.writes, s)
 					}
 					return
+				}
+			}
+			// mutating method call on a package-level container (sync.Map, sync.Pool is exempt: it
+			// carries no observable state by construction of the Get sites), or delete(v, k)
+			if len(stack) >= 2 && !v.isPool {
+				if se, ok := stack[len(stack)-1].(*ast.SelectorExpr); ok && se.X == ast.Expr(id) && isCallFun(stack[:len(stack)-1], se) && mutators[se.Sel.Name] {
+					s.kind = "method:" + se.Sel.Name
+					v.writes = append(v.writes, s)
+					return
+				}
+			}
+			if len(stack) >= 1 {
+				if ce, ok := stack[len(stack)-1].(*ast.CallExpr); ok && len(ce.Args) == 2 && ce.Args[0] == ast.Expr(id) {
+					if f, ok := ce.Fun.(*ast.Ident); ok && f.Name == "delete" {
+						s.kind = "delete"
+						v.writes = append(v.writes, s)
+						return
+					}
 				}
 			}
 			s.kind = "read"
@@ -1284,5 +1306,4 @@ func emit(b *bytes.Buffer, all []*pkgInfo) {
 	}
 	sort.Strings(it)
 	fmt.Fprintf(b, "/-- exported helper types whose methods are assumed not to be entry points -/\ndef internalTypes : List String := %s\n\n", qs(it))
-	fmt.Fprintln(b, "end Canvas.FactsC20")
 }
